@@ -892,6 +892,18 @@ def _c14_worker(job):
                           (33, [l, 1, 1, 1]),
                           (26, [99, [l], 2, None, 0])):
                 s.do(op, a)
+            # prefix lists in which only a LATER entry is absent (or an entry is repeated): the request is refused - or
+            # answered - without a byte written, whatever the position of the absent prefix in the list
+            ws = s.tr.weids()
+            if ws:
+                w = rng.choice(ws)
+                known = s.tr.prefixes_of(w)
+                rng.shuffle(known)
+                for pl in ([known[0], l], known + [l], [known[0], known[0], l], [l, known[0]], [known[0], known[0]]):
+                    for op, a in ((24, [w, pl]), (25, [w, pl]), (26, [w, pl, 1, None, 0]), (26, [w, pl, 2, None, 1]), (27, [w, pl, 3, None]),
+                                  (28, [w, pl]), (29, [w, pl]), (30, [w, pl, 1, 1, 1]), (31, [w, pl, 1, 1, 1, None]),
+                                  (31, [w, pl, 0, 1, 2, None]), (32, [1, w, pl]), (32, [0, w, pl])):
+                        s.do(op, a)
         # the same queries on an index reopened with FEWER rules than its anchors (stale rule flags in the trie)
         if cfg["backend"] == "f" and not getattr(s, "dead", False):
             s.do(13, [s.tr.dflt, []])
